@@ -404,7 +404,20 @@ class Frame:
         self.self_term = self_term
 
 
+_AN_CACHE = {}
+
+
 def _assigned_names(stmts):
+    key = id(stmts)
+    hit = _AN_CACHE.get(key)
+    if hit is not None and hit[0] is stmts:
+        return hit[1]
+    r = _assigned_names0(stmts)
+    _AN_CACHE[key] = (stmts, r)
+    return r
+
+
+def _assigned_names0(stmts):
     names, attrs = set(), set()
     for s in stmts:
         for n in ast.walk(s):
@@ -887,8 +900,11 @@ class Exec:
     def _for(self, s, st, fr):
         it = self.ev(s.iter, st, fr)
         names, attrs = _assigned_names(s.body)
+        pre = {n: st.env[n] for n in names if n in st.env}
         for n in names:
-            st.env[n] = ("unk", "loop-carried", n)
+            # a variable defined before the loop and re-assigned in it is loop-carried: it is a
+            # symbol inside the body; the rules compare its value at the end of the iteration with it
+            st.env[n] = ("carried", n, s.lineno) if n in pre else ("unk", "loop-carried", n)
         for k in list(st.heap):
             if k[1] in attrs:
                 st.heap[k] = ("unk", "loop-carried attribute", k[1])
@@ -906,7 +922,8 @@ class Exec:
             if sig in ("return", "raise"):
                 yield st2, sig
                 continue
-            self._emit(st2, fr, "iter_end", s, value=st2.exit_guard, name=sig or "end")
+            self._emit(st2, fr, "iter_end", s, value=st2.exit_guard, name=sig or "end",
+                       key={n: (pre[n], st2.env.get(n)) for n in pre})
             st2.exit_guard = None
             for n in names:
                 st2.env[n] = ("unk", "after-loop", n)
@@ -1030,8 +1047,7 @@ class Exec:
             r = self._pure_summary(callee, args, kw, recv, fr)
             if r is not None:
                 return r
-        name = fterm[2] if isinstance(fterm, tuple) and fterm[0] == "attr" else (fterm[2] if fterm[0] == "func" else str(fterm[-1]))
-        self._emit(st, fr, "call", call, recv=recv, name=name, args=tuple(args), kw=kw, value=t)
+        self._emit(st, fr, "call", call, recv=recv, name=_fname(fterm), args=tuple(args), kw=kw, value=t)
         return t
 
     def _pure_summary(self, callee, args, kw, recv, fr):
@@ -1061,6 +1077,14 @@ class Exec:
             nn = {x for x in rets if x != const(None)}
             if len(nn) == 1:
                 r = nn.pop()
+                # the value must be expressible in the caller: no symbol created inside the callee
+                outer = set()
+                for a in list(args) + [v for _, v in kw] + ([recv] if recv is not None else []):
+                    outer.update(x for x in subterms(a) if isinstance(x, tuple) and x and x[0] in ("elem", "carried", "unk", "enumidx"))
+                for x in subterms(r):
+                    if isinstance(x, tuple) and x and x[0] in ("elem", "carried", "unk", "enumidx") and x not in outer:
+                        r = None
+                        break
         self.eng._summary[key] = r
         return r
 
@@ -1093,8 +1117,7 @@ class Exec:
                 yield s2, val
             return
         t = mk_call(fterm, args, kw)
-        name = fterm[2] if isinstance(fterm, tuple) and fterm[0] in ("attr", "func") else str(fterm[-1])
-        self._emit(st, fr, "call", call, recv=recv, name=name, args=tuple(args), kw=kw, value=t)
+        self._emit(st, fr, "call", call, recv=recv, name=_fname(fterm), args=tuple(args), kw=kw, value=t)
         yield st, t
 
     # ---- expressions -------------------------------------------------------------
@@ -1124,6 +1147,10 @@ class Exec:
             attr = e.attr
             if (base, attr) in st.heap:
                 return st.heap[(base, attr)]
+            if isinstance(base, tuple) and base[0] == "new":
+                v = self._ctor_attr(base, attr)
+                if v is not None:
+                    return v
             if attr in st.dirty:
                 return ("unk", "attribute written in a loop", attr)
             # property getters of known classes are summarised
@@ -1203,6 +1230,24 @@ class Exec:
             return v
         return ("expr", type(e).__name__, norm(e))
 
+    def _ctor_attr(self, new, attr):
+        """X(a, b).attr where X.__init__ does `self.attr = <parameter>` -> the argument"""
+        c = self.eng.repo.modules[new[3]].classes.get(new[1]) if len(new) > 3 and new[3] in self.eng.repo.modules else None
+        if c is None:
+            return None
+        init = self.eng.lookup(c, "__init__")
+        if init is None:
+            return None
+        params = init.params()[1:]
+        for n in walk_no_nested(init.node):
+            if isinstance(n, ast.Assign) and isinstance(n.value, ast.Name) and n.value.id in params:
+                for t in n.targets:
+                    if isinstance(t, ast.Attribute) and t.attr == attr and isinstance(t.value, ast.Name) and t.value.id == "self":
+                        i = params.index(n.value.id)
+                        if i < len(new[2]):
+                            return new[2][i]
+        return None
+
     def _binop(self, op, a, b):
         if mentions(a, OP) or mentions(b, OP):
             self.op_arith = True
@@ -1237,6 +1282,15 @@ class Exec:
             if r is not None:
                 return r
         return ("binop", _BINNAME.get(type(op), type(op).__name__), a, b)
+
+
+def _fname(fterm):
+    if isinstance(fterm, tuple) and fterm:
+        if fterm[0] in ("attr", "func"):
+            return fterm[2]
+        if fterm[0] in ("builtin", "global", "localfunc", "class"):
+            return fterm[1]
+    return str(fterm[-1]) if isinstance(fterm, tuple) and fterm else str(fterm)
 
 
 def _inty(t):
@@ -1482,6 +1536,17 @@ class Roles:
                 return ("ENC",) + rr[1:]
             return None
         if k == "lin":
+            parts = []
+            for a, c in t[1]:
+                ra = R(a)
+                if ra is None:
+                    return None
+                parts.append((ra, c))
+            return ("LIN", tuple(parts), t[2])
+        if k == "binop":
+            ra, rb = R(t[2]), R(t[3])
+            if ra is not None and rb is not None:
+                return ("BINOP", t[1], ra, rb)
             return None
         return None
 
@@ -1576,6 +1641,13 @@ class Roles:
             return repr(r[1])
         if k == "WRONGVM":
             return "%s.get_cm_%s(ref_idx)" % (self.rname(r[2]), r[1])
+        if k == "LIN":
+            parts = [(self.rname(a) or "?") if c == 1 else "%d*%s" % (c, self.rname(a) or "?") for a, c in r[1]]
+            if r[2]:
+                parts.append(str(r[2]))
+            return " + ".join(parts)
+        if k == "BINOP":
+            return "(%s %s %s)" % (self.rname(r[2]) or "?", r[1], self.rname(r[3]) or "?")
         return None
 
 
@@ -1761,3 +1833,1767 @@ def fact_pool(f: Fact):
         if p:
             return p
     return None
+
+
+# ===========================================================================
+# rule core 1: facts of _create_xref against the specification
+# ===========================================================================
+CURCLS = ("CLS", ("CUR", "clsname"))
+CURM = ("METH", "CUR")
+OFFR = ("OFF",)
+
+SPEC_OPS = {
+    ("method", "get_xref_to"): dalvik.INVOKE_OPS,
+    ("method", "get_xref_from"): dalvik.INVOKE_OPS,
+    ("type", "get_xref_to"): {dalvik.CONST_CLASS_OP, dalvik.NEW_INSTANCE_OP},
+    ("type", "get_xref_from"): {dalvik.CONST_CLASS_OP, dalvik.NEW_INSTANCE_OP},
+    ("type", "get_xref_new_instance"): {dalvik.NEW_INSTANCE_OP},
+    ("type", "get_xref_const_class"): {dalvik.CONST_CLASS_OP},
+    ("string", "get_xref_from"): dalvik.CONST_STRING_OPS,
+    ("field", "get_xref_read"): dalvik.FIELD_READ_OPS,
+    ("field", "get_xref_write"): dalvik.FIELD_WRITE_OPS,
+}
+# facts the property statements require for every instruction of the kind (owner class, getter)
+REQUIRED = {
+    "method": lambda k: [("MethodAnalysis", "get_xref_to"), ("MethodAnalysis", "get_xref_from")],
+    "type": lambda k: ([("MethodAnalysis", "get_xref_new_instance"), ("ClassAnalysis", "get_xref_new_instance")] if k == dalvik.NEW_INSTANCE_OP
+                       else [("MethodAnalysis", "get_xref_const_class"), ("ClassAnalysis", "get_xref_const_class")]),
+    "string": lambda k: [("StringAnalysis", "get_xref_from")],
+    "field": lambda k: ([("FieldAnalysis", "get_xref_read"), ("MethodAnalysis", "get_xref_read")] if k in dalvik.FIELD_READ_OPS
+                        else [("FieldAnalysis", "get_xref_write"), ("MethodAnalysis", "get_xref_write")]),
+}
+
+
+def spec_pool(k):
+    if k in dalvik.INVOKE_OPS:
+        return "method"
+    if k in (dalvik.CONST_CLASS_OP, dalvik.NEW_INSTANCE_OP):
+        return "type"
+    if k in dalvik.CONST_STRING_OPS:
+        return "string"
+    if k in dalvik.FIELD_READ_OPS or k in dalvik.FIELD_WRITE_OPS:
+        return "field"
+    return None
+
+
+def _norm_cond(term, outcome):
+    """strip negations: -> (atom, truthy)"""
+    while isinstance(term, tuple) and term and term[0] == "not":
+        term, outcome = term[1], not outcome
+    if isinstance(term, tuple) and term and term[0] == "cmp" and term[3] == const(None):
+        if term[1] in ("is", "=="):
+            return term[2], not outcome
+        if term[1] in ("is not", "!="):
+            return term[2], outcome
+    if isinstance(term, tuple) and term and term[0] == "cmp" and term[1] in ("!=", "not in", "is not"):
+        return ("cmp", {"!=": "==", "not in": "in", "is not": "is"}[term[1]], term[2], term[3]), not outcome
+    return term, outcome
+
+
+def _field_lookup_param_roles(eng: Engine):
+    """component order expected by DEX.get_encoded_field_descriptor, derived from the way it
+    builds its lookup key from the parameters and the cache key from the EncodedField getters"""
+    f = eng.func(DEX, "DEX.get_encoded_field_descriptor")
+    params = f.params()[1:]
+
+    def chain(e):
+        out = []
+        while isinstance(e, ast.BinOp) and isinstance(e.op, ast.Add):
+            out.insert(0, e.right)
+            e = e.left
+        out.insert(0, e)
+        return out
+
+    pkey = gkey = None
+    for n in ast.walk(f.node):
+        if isinstance(n, ast.BinOp) and isinstance(n.op, ast.Add) and not isinstance(getattr(n, "_parent", None), ast.BinOp):
+            parts = chain(n)
+            if all(isinstance(p, ast.Name) and p.id in params for p in parts):
+                pkey = [p.id for p in parts]
+            elif all(isinstance(p, ast.Call) and isinstance(p.func, ast.Attribute) and p.func.attr.startswith("get_") for p in parts):
+                gkey = [p.func.attr[4:] for p in parts]
+    if pkey is None or gkey is None or len(pkey) != len(gkey) or sorted(pkey) != sorted(params):
+        raise AnalysisError("DEX.get_encoded_field_descriptor: cannot derive the key order (parameters %s, getters %s)" % (pkey, gkey))
+    by_param = dict(zip(pkey, gkey))
+    roles = [by_param[p] for p in params]
+    # an EncodedField's descriptor is the field's type
+    return ["type" if r == "descriptor" else r for r in roles]
+
+
+class XrefRules:
+    def __init__(self, sink, xm: XrefModel, prop):
+        self.s = sink
+        self.xm = xm
+        self.R = xm.roles
+        self.prop = prop
+        self.root = xm.root
+        self._field_roles = None
+
+    # ---- helpers -------------------------------------------------------------
+    def rn(self, r):
+        if r is None:
+            return "<unclassified>"
+        return self.R.rname(r) or repr(r)
+
+    def need(self, r, term, what):
+        if r is None:
+            raise AnalysisError("%s: cannot classify the origin of %s (%s) -- the code left the analysed fragment"
+                                % (self.root.qualname, self.R.render(term), what))
+        return r
+
+    def field_item_ok(self, r):
+        """is r the EncodedField looked up with (class_name, name, type) of the instruction's field reference?"""
+        if r is None or r[0] != "FIELDITEM":
+            return False
+        if self._field_roles is None:
+            self._field_roles = _field_lookup_param_roles(self.xm.eng)
+        exp = tuple(("T", "field", c, "raw") for c in self._field_roles)
+        return tuple(r[2]) == exp
+
+    # ---- the per-fact signature ---------------------------------------------------
+    def expected(self, f: Fact, pool, kt):
+        """expected (owner, key, tuple) roles of a fact; kt = class-name role of the target"""
+        g, oc = f.getter, f.owner_cls
+        REF = ("REF", "REF_TYPE")
+        if pool == "method":
+            TM = ("METH", "T", kt, ("T", "method", "name", "raw"), ("T", "method", "proto", "raw"))
+            TC = ("CLS", kt)
+            if (oc, g) == ("MethodAnalysis", "get_xref_to"):
+                return CURM, None, (TC, TM, OFFR)
+            if (oc, g) == ("MethodAnalysis", "get_xref_from"):
+                return TM, None, (CURCLS, CURM, OFFR)
+            if (oc, g) == ("ClassAnalysis", "get_xref_to"):
+                return CURCLS, TC, (REF, TM, OFFR)
+            if (oc, g) == ("ClassAnalysis", "get_xref_from"):
+                return TC, CURCLS, (REF, CURM, OFFR)
+        if pool == "type":
+            TC = ("CLS", kt)
+            if (oc, g) == ("ClassAnalysis", "get_xref_to"):
+                return CURCLS, TC, (REF, CURM, OFFR)
+            if (oc, g) == ("ClassAnalysis", "get_xref_from"):
+                return TC, CURCLS, (REF, CURM, OFFR)
+            if oc == "MethodAnalysis" and g in ("get_xref_new_instance", "get_xref_const_class"):
+                return CURM, None, (TC, OFFR)
+            if oc == "ClassAnalysis" and g in ("get_xref_new_instance", "get_xref_const_class"):
+                return TC, None, (CURM, OFFR)
+        if pool == "string":
+            if (oc, g) == ("StringAnalysis", "get_xref_from"):
+                return ("STR", ("T", "string", None, "raw")), None, (CURCLS, CURM, OFFR)
+        if pool == "field":
+            if oc == "FieldAnalysis" and g in ("get_xref_read", "get_xref_write"):
+                return "FIELD-OWNER", None, (CURCLS, CURM, OFFR)
+            if oc == "MethodAnalysis" and g in ("get_xref_read", "get_xref_write"):
+                return CURM, None, (CURCLS, "FIELD-ITEM", OFFR)
+        return None
+
+    def target_key(self, p: PathRec, pool):
+        """the class-name role under which the target class is looked up on this path"""
+        want = {"method": ("T", "method", "class_name"), "type": ("T", "type", None)}.get(pool)
+        if want is None:
+            return None
+        found = []
+        for f in p.facts:
+            if fact_pool(f) != pool:
+                continue
+            for r in (f.r_owner, f.r_key) + tuple(f.r_tup):
+                if r is not None and r[0] == "CLS" and r[1] is not None and r[1][:3] == want and r[1] not in found:
+                    found.append(r[1])
+        return found
+
+    # ---- main ------------------------------------------------------------------------
+    def run(self, pools):
+        s, xm = self.s, self.xm
+        s.analysed(self.root)
+        site_ops = {}   # site -> set of opcodes
+        site_info = {}  # site -> (fact sample, pool)
+        reached_ops = set()
+        n_paths = 0
+        for p in xm.paths:
+            if p.state.raised:
+                continue
+            n_paths += 1
+            if p.reached:
+                reached_ops |= set(p.ops)
+            pools_here = []
+            for f in p.facts:
+                pool = fact_pool(f)
+                f.pool = pool
+                if pool is None:
+                    raise AnalysisError("%s: a record into %s.%s() has no classifiable target: %s"
+                                        % (self.root.qualname, f.owner_cls, f.getter, "; ".join(self.R.render(t) for t in (f.owner,) + f.tup)))
+                if pool not in pools_here:
+                    pools_here.append(pool)
+                st = f.site()
+                site_ops.setdefault(st, set()).update(p.ops)
+                site_info.setdefault(st, (f, pool))
+            for pool in pools_here:
+                if pool in pools:
+                    self.check_path_facts(p, pool)
+            self.check_coverage(p, pools)
+        s.count("paths", n_paths)
+        s.count("opcode_regions", xm.nparts)
+        s.require(set(OP_DOMAIN) <= reached_ops, "%s: the instruction loop is not reached for opcodes %s" % (
+            self.root.qualname, op_set_str(set(OP_DOMAIN) - reached_ops)))
+        # ---- opcode sets per recording site ------------------------------------------------
+        covered = {}
+        for st, ops in site_ops.items():
+            f, pool = site_info[st]
+            if pool not in pools:
+                continue
+            s.count("recording_sites")
+            exp = SPEC_OPS.get((pool, f.getter))
+            inst = "%s.%s via %s" % (f.owner_cls, f.getter, "/".join(f.ev.chain()[1:]) or "direct")
+            if exp is None:
+                s.check("opcode-sets", inst, False, self.root, self.site_construct(f), "a %s reference is recorded into %s.%s(), which the specification does not provide for"
+                        % (pool, f.owner_cls, f.getter), node=f.ev.root_node())
+                continue
+            covered.setdefault((pool, f.owner_cls, f.getter), set()).update(ops)
+            extra = ops - exp
+            test = self.op_test_of(f.ev.root_node())
+            s.check("opcode-sets", inst, not extra, self.root, test if test is not None else self.site_construct(f),
+                    "%s.%s() is recorded for opcodes outside the specified set: %s (specified: %s)" % (
+                        f.owner_cls, f.getter, op_set_str(extra), op_set_str(exp)),
+                    node=f.ev.root_node(), detail="opcodes reaching the record = %s, all within the specified set" % op_set_str(ops))
+        for pool in pools:
+            for k in sorted(k for k in OP_DOMAIN if spec_pool(k) == pool):
+                for oc, g in REQUIRED[pool](k):
+                    got = covered.get((pool, oc, g), set())
+                    if k not in got:
+                        s.check("opcode-sets", "%s.%s" % (oc, g), False, self.root, "%s.%s: %s" % (oc, g, op_name(k)),
+                                "no path records %s into %s.%s()" % (op_name(k), oc, g), node=self.root.node)
+            for (pl, oc, g), got in covered.items():
+                if pl == pool:
+                    s.ob("opcode-sets", "%s %s.%s covers" % (pool, oc, g), SPEC_OPS[(pool, g)] <= got,
+                         "every opcode of {%s} reaches the record" % op_set_str(SPEC_OPS[(pool, g)]))
+
+    def site_construct(self, f: Fact):
+        return "%s.%s <- (%s)" % (self.rn(f.r_owner) if f.r_owner else self.R.render(f.owner), f.getter,
+                                  ", ".join(self.rn(r) if r else self.R.render(t) for r, t in zip(f.r_tup, f.tup)))
+
+    def op_test_of(self, node):
+        """innermost enclosing `if` of the root function whose test depends on the opcode variable"""
+        opvars = set()
+        for n in ast.walk(self.root.node):
+            if isinstance(n, ast.Assign) and _is_call_to(n.value, "get_op_value"):
+                for t in n.targets:
+                    if isinstance(t, ast.Name):
+                        opvars.add(t.id)
+        cur = getattr(node, "_parent", None)
+        child = node
+        while cur is not None and cur is not self.root.node:
+            if isinstance(cur, ast.If) and child not in cur.orelse:
+                for x in ast.walk(cur.test):
+                    if (isinstance(x, ast.Name) and x.id in opvars) or _is_call_to(x, "get_op_value"):
+                        return cur.test
+            child, cur = cur, getattr(cur, "_parent", None)
+        return None
+
+    # ---- typing of the facts on one path ------------------------------------------------
+    def check_path_facts(self, p: PathRec, pool):
+        s = self.s
+        kts = self.target_key(p, pool)
+        kt = None
+        if pool in ("method", "type"):
+            if not kts:
+                # no fact names a target class: the signature check below reports what is there instead
+                kt = ("T", pool, "class_name" if pool == "method" else None, "raw")
+            else:
+                kt = kts[0]
+                if len(kts) > 1:
+                    f0 = next(f for f in p.facts if f.pool == pool)
+                    s.check("origin", "target class agreement", False, self.root, "target classes " + " / ".join(self.rn(("CLS", k)) for k in kts),
+                            "records of one %s instruction name different target classes: %s" % (pool, ", ".join(self.rn(("CLS", k)) for k in kts)),
+                            node=f0.ev.root_node())
+            # ---- target identity: the class on which the reference is filed is the class the instruction names
+            if kt[3] != "raw":
+                f0 = next(f for f in p.facts if f.pool == pool)
+                what = "invoke" if pool == "method" else "new-instance/const-class"
+                s.check("target-identity", "%s target class" % what, False, self.root, self.rn(kt),
+                        "the target class of a %s instruction is looked up as %s, not as the class named by the instruction: "
+                        "a reference to an array class '[LFoo;' is recorded against 'LFoo;'" % (what, self.rn(kt)), node=f0.ev.root_node())
+            else:
+                s.ob("target-identity", "%s target class" % pool, True, "target class key = %s" % self.rn(kt))
+        for f in p.facts:
+            if f.pool != pool:
+                continue
+            s.count("facts")
+            exp = self.expected(f, pool, kt)
+            inst = "%s.%s %s" % (f.owner_cls, f.getter, op_name(p.ops[0]))
+            if exp is None:
+                continue  # reported by the opcode-set rule (unspecified record)
+            e_owner, e_key, e_tup = exp
+            via = "/".join(f.ev.chain()[1:])
+            node = f.ev.root_node()
+            # owner
+            if e_owner == "FIELD-OWNER":
+                self.check_field_owner(f, inst, node)
+            else:
+                self.need(f.r_owner, f.owner, "owner of the %s record" % f.getter)
+                s.check("origin", inst + " owner", f.r_owner == e_owner, self.root,
+                        "%s.%s owner %s" % (f.owner_cls, f.getter, self.rn(f.r_owner)),
+                        "%s.%s(): the record is made on %s, specification: on %s (via %s)" % (f.owner_cls, f.getter, self.rn(f.r_owner), self.rn(e_owner), via or "direct call"),
+                        node=node, detail="owner = %s" % self.rn(e_owner))
+            if e_key is not None or f.key is not None:
+                if f.key is not None:
+                    self.need(f.r_key, f.key, "key of the %s record" % f.getter)
+                s.check("origin", inst + " key", f.r_key == e_key, self.root,
+                        "%s.%s key %s" % (f.owner_cls, f.getter, self.rn(f.r_key)),
+                        "%s.%s(): the record is keyed by %s, specification: %s" % (f.owner_cls, f.getter, self.rn(f.r_key), self.rn(e_key) if e_key else "no key"),
+                        node=node, detail="key = %s" % (self.rn(e_key) if e_key else None))
+            ok_len = len(f.r_tup) == len(e_tup)
+            s.check("origin", inst + " arity", ok_len, self.root, "%s.%s tuple of %d" % (f.owner_cls, f.getter, len(f.r_tup)),
+                    "%s.%s(): recorded tuple has %d components, specification: %d" % (f.owner_cls, f.getter, len(f.r_tup), len(e_tup)), node=node)
+            if not ok_len:
+                continue
+            for i, (got, want, term) in enumerate(zip(f.r_tup, e_tup, f.tup)):
+                if want == "FIELD-ITEM":
+                    self.need(got, term, "component %d of the %s record" % (i, f.getter))
+                    ok = self.field_item_ok(got)
+                    wants = "the EncodedField of the instruction's field reference"
+                else:
+                    self.need(got, term, "component %d of the %s record" % (i, f.getter))
+                    ok = got == want
+                    wants = self.rn(want)
+                s.check("origin", "%s [%d]" % (inst, i), ok, self.root,
+                        "%s.%s[%d] = %s" % (f.owner_cls, f.getter, i, self.rn(got)),
+                        "%s.%s(): component %d of the recorded tuple is %s, specification: %s (via %s)" % (
+                            f.owner_cls, f.getter, i, self.rn(got), wants, via or "direct call"),
+                        node=node, detail="component %d = %s" % (i, wants))
+            # REF_TYPE(op) must be defined for every opcode that reaches it
+            for got in f.r_tup:
+                if got is not None and got[0] == "REF":
+                    self.check_ref_members(got[1], p.ops, node)
+        # ---- pairing of the class-level to/from records ----------------------------------
+        if pool in ("method", "type"):
+            have = {(f.owner_cls, f.getter) for f in p.facts if f.pool == pool}
+            for a, b in ((("ClassAnalysis", "get_xref_to"), ("ClassAnalysis", "get_xref_from")),
+                         (("MethodAnalysis", "get_xref_to"), ("MethodAnalysis", "get_xref_from"))):
+                if (a in have) != (b in have):
+                    present, absent = (a, b) if a in have else (b, a)
+                    f0 = next(f for f in p.facts if (f.owner_cls, f.getter) == present)
+                    s.check("pairing", "%s.%s <-> %s" % (present + (absent[1],)), False, self.root,
+                            "%s.%s without %s.%s" % (present + absent),
+                            "a path through the %s branch records %s.%s() but not the mirror %s.%s() (conditions: %s)" % (
+                                pool, present[0], present[1], absent[0], absent[1],
+                                "; ".join("%s is %s" % (self.R.render(c), o) for c, o, _ in p.conds) or "none"),
+                            node=f0.ev.root_node())
+                elif a in have:
+                    s.ob("pairing", "%s %s %s" % (pool, a[0], op_name(p.ops[0])), True, "to and from recorded on the same path")
+
+    def check_field_owner(self, f: Fact, inst, node):
+        s = self.s
+        r = self.need(f.r_owner, f.owner, "owner of the %s record" % f.getter)
+        ok = False
+        why = ""
+        if r[0] == "FIELD":
+            cls_role, item = r[1], r[2]
+            item_ok = self.field_item_ok(item)
+            kf = cls_role[1] if cls_role is not None and cls_role[0] == "CLS" else None
+            cls_ok = kf is not None and (kf == ("T", "field", "class_name", "raw") or kf[0] == "FIELDITEM.class_name")
+            ok = item_ok and cls_ok
+            if not cls_ok:
+                why = "the FieldAnalysis is looked up (and created if absent) in %s, specification: in the class that defines the field (classes[fieldref.class_name])" % self.rn(cls_role)
+            elif not item_ok:
+                why = "the FieldAnalysis is keyed by %s, not by the EncodedField of the instruction's field reference" % self.rn(item)
+        else:
+            why = "the record is made on %s, not on a FieldAnalysis of the field's class" % self.rn(r)
+        s.check("origin", inst + " owner", ok, self.root, "%s.%s owner %s" % (f.owner_cls, f.getter, self.rn(r)),
+                "%s.%s(): %s (via %s)" % (f.owner_cls, f.getter, why, "/".join(f.ev.chain()[1:])), node=node,
+                detail="owner = FieldAnalysis of the target field in the field's own class")
+
+    def check_ref_members(self, enum_name, ops, node):
+        s = self.s
+        c = self.xm.m.classes.get(enum_name)
+        s.require(c is not None and self.xm.eng.folder.is_enum(c), "REF_TYPE enum vanished")
+        mem = self.xm.eng.folder.enum_members(c)
+        vals = {int(v) for v in mem.values() if isinstance(v, int)}
+        bad = [k for k in ops if k not in vals]
+        s.check("ref-type", "%s defined for %s" % (enum_name, op_name(ops[0])), not bad, self.root,
+                "%s(op_value) for %s" % (enum_name, op_set_str(bad) if bad else ""),
+                "%s(op_value) is evaluated for %s, which is not a member of %s (ValueError at run time)" % (enum_name, op_set_str(bad), enum_name),
+                node=node, detail="%s has a member for the opcode" % enum_name)
+
+    # ---- coverage: every instruction of the kind is recorded unless excused ---------------------------
+    def excuse(self, pool, cond, kts):
+        term, outcome, _ = cond
+        atom, truthy = _norm_cond(term, outcome)
+        r = self.R.role(atom)
+        if pool == "method" and r == ("INFO", "method") and not truthy:
+            return "unresolvable method reference"
+        if pool == "field" and r is not None and r[0] == "FIELDITEM" and not truthy:
+            return "target field not defined"
+        if pool == "type" and self.is_self_test(atom) and truthy:
+            return "self reference"
+        return None
+
+    def is_self_test(self, atom):
+        if isinstance(atom, tuple) and atom and atom[0] == "cmp" and atom[1] == "==":
+            ra, rb = self.R.role(atom[2]), self.R.role(atom[3])
+            rs = {ra, rb}
+            if ("CUR", "clsname") in rs:
+                other = (rs - {("CUR", "clsname")})
+                if other:
+                    o = other.pop()
+                    return o is not None and o[0] == "T" and o[2] in ("class_name", None) and o[1] in ("type", "method", "field")
+        return False
+
+    def check_coverage(self, p: PathRec, pools):
+        s = self.s
+        if not p.reached:
+            return
+        have = {(f.owner_cls, f.getter) for f in p.facts}
+        for k in p.ops:
+            pool = spec_pool(k)
+            if pool is None or pool not in pools:
+                continue
+            req = REQUIRED[pool](k)
+            missing = [x for x in req if x not in have]
+            inst = "%s path %s" % (op_name(k), "|".join("%s=%s" % (self.R.render(c)[:60], o) for c, o, _ in p.conds) or "-")
+            if not missing:
+                s.ob("coverage", inst, True, "records %s" % ", ".join("%s.%s" % x for x in req))
+                if pool == "type":
+                    self.check_self_guard(p, k)
+                else:
+                    # no self-exclusion outside the class-usage branch
+                    for c in p.conds:
+                        atom, truthy = _norm_cond(c[0], c[1])
+                        if self.is_self_test(atom):
+                            s.check("exclusions", "%s self test" % op_name(k), False, self.root, self.R.render(atom),
+                                    "%s instructions are filtered by a comparison with the current class (%s); only new-instance/const-class exclude self references"
+                                    % (pool, self.R.render(atom)), node=c[2])
+                continue
+            culprit = p.guard or (p.conds[-1] if p.conds else None)
+            if culprit is None:
+                continue  # no record at all for this opcode: reported by the opcode-set rule
+            why = self.excuse(pool, culprit, None)
+            atom, truthy = _norm_cond(culprit[0], culprit[1])
+            s.check("coverage", inst, why is not None, self.root, "skip when %s is %s" % (self.R.render(atom), truthy),
+                    "%s: the instruction is not recorded (%s missing) when `%s` is %s; the specification only excuses %s" % (
+                        op_name(k), ", ".join("%s.%s" % x for x in missing), self.R.render(atom), truthy,
+                        {"method": "an unresolvable method reference", "field": "a field that is not defined in the analysed DEX files",
+                         "type": "a reference of a class to itself", "string": "nothing"}[pool]),
+                    node=culprit[2], detail="excused: %s" % why)
+
+    def check_self_guard(self, p: PathRec, k):
+        ok = False
+        for c in p.conds:
+            atom, truthy = _norm_cond(c[0], c[1])
+            if self.is_self_test(atom) and not truthy:
+                ok = True
+        f0 = next((f for f in p.facts if f.pool == "type"), None)
+        self.s.check("exclusions", "%s self guard" % op_name(k), ok, self.root, "self-reference guard of %s" % op_name(k),
+                     "%s on the scanned class itself is recorded: no `type == current class` guard on the recording path" % op_name(k),
+                     node=f0.ev.root_node() if f0 else self.root.node, detail="recording path passes `target type == current class` is False")
+
+
+# ===========================================================================
+# rule core 2: registration stores made while recording (ClassAnalysis._methods / ._fields)
+# ===========================================================================
+def rule_registration(sink, xm: XrefModel, which):
+    """`which` in ('methods', 'fields').  A recorder that does not find the method / field in the
+    receiving ClassAnalysis registers it there: the receiving class must be the class of the item."""
+    R = xm.roles
+    root = xm.root
+    attr = "_" + which
+    seen = set()
+    for p in xm.paths:
+        if p.state.raised:
+            continue
+        for e in p.state.events:
+            if e.kind != "store_sub" or not (isinstance(e.base, tuple) and e.base[0] == "attr" and e.base[2] == attr):
+                continue
+            rc = R.role(e.base[1])
+            rk = R.role(e.key)
+            via = "/".join(e.chain()[1:]) or "direct"
+            if which == "methods":
+                if rc is None or rk is None:
+                    raise AnalysisError("%s: cannot classify the registration %s" % (root.qualname, e))
+                ok = False
+                want = None
+                if rk[0] == "ENC":
+                    m = ("METH",) + rk[1:]
+                    want = CURCLS if m == CURM else (("CLS", m[2]) if m[1] == "T" else None)
+                    ok = rc == want and R.role(e.value) == m
+                sink.count("registrations")
+                k = ("m", rc, rk)
+                sink.check("registration", "_methods %s via %s" % (R.rname(rk), via), ok, root,
+                           "%s._methods[%s] via %s" % (R.rname(rc), R.rname(rk), via),
+                           "a MethodAnalysis (%s) is registered in %s, which is not its class (%s)" % (R.rname(rk), R.rname(rc), R.rname(want) if want else "?"),
+                           node=e.root_node(), detail="registered in its own class %s" % (R.rname(want) if want else ""))
+            else:
+                if rc is None or rk is None:
+                    raise AnalysisError("%s: cannot classify the registration %s" % (root.qualname, e))
+                kf = rc[1] if rc[0] == "CLS" else None
+                ok = kf is not None and (kf == ("T", "field", "class_name", "raw") or kf[0] == "FIELDITEM.class_name")
+                sink.count("registrations")
+                sink.check("single-field-analysis", "_fields via %s" % via, ok, root,
+                           "%s._fields[field] = FieldAnalysis(field) via %s" % (R.rname(rc), via),
+                           "a second FieldAnalysis for the accessed field is created in %s (the accessing class) instead of using the one "
+                           "Analysis.add() registered in the class that defines the field" % R.rname(rc),
+                           node=e.root_node(), detail="created only in the defining class")
+
+
+def rule_add_method_invariant(sink, eng: Engine):
+    """every store into ClassAnalysis._methods / ._fields has the shape  d[v.get_method()] = v  (resp. get_field):
+    this is what lets `C._methods[M.get_method()]` be read as M"""
+    m = eng.mod(ANALYSIS)
+    c = m.cls("ClassAnalysis")
+    n = 0
+    for f in eng.cls_methods(c):
+        for node in ast.walk(f.node):
+            if isinstance(node, ast.Assign):
+                for t in node.targets:
+                    if (isinstance(t, ast.Subscript) and isinstance(t.value, ast.Attribute) and t.value.attr == "_methods"
+                            and isinstance(t.value.value, ast.Name) and t.value.value.id == "self"):
+                        n += 1
+                        k, v = t.slice, node.value
+                        ok = (isinstance(v, ast.Name) and isinstance(k, ast.Call) and isinstance(k.func, ast.Attribute)
+                              and k.func.attr == "get_method" and isinstance(k.func.value, ast.Name) and k.func.value.id == v.id)
+                        sink.check("registration", "ClassAnalysis._methods store in %s" % f.name, ok, f, "_methods[v.get_method()] = v",
+                                   "%s stores into _methods with a key that is not the value's own get_method()" % f.qualname, node=node,
+                                   detail="_methods[v.get_method()] = v")
+    sink.count("methods_stores", n)
+    sink.floor("methods_stores", 1)
+
+
+# ===========================================================================
+# rule core 3: _resolve_method  and the table Analysis.add fills
+# ===========================================================================
+def _leaf_params(t):
+    return {x for x in subterms(t) if isinstance(x, tuple) and x and x[0] == "param"}
+
+
+def rule_resolve(sink, eng: Engine):
+    m = eng.mod(ANALYSIS)
+    A = m.cls("Analysis")
+    f = eng.func(ANALYSIS, "Analysis._resolve_method")
+    sink.analysed(f)
+    ps = f.params()
+    sink.require(len(ps) == 4, "Analysis._resolve_method: expected (self, class_name, method_name, method_descriptor)")
+    P = [("param", f.qualname, x) for x in ps[1:]]
+    sts = [s for s in Exec(eng, root_cls=A).run(f) if not s.raised]
+    sink.require(sts, "Analysis._resolve_method has no normal path")
+    tables = set()
+    hit = miss = 0
+    for st in sts:
+        ret = st.retval
+        sink.require(ret is not None and ret[0] == "sub" and ret[1][0] == "attr" and ret[1][1] == ROOT_SELF,
+                     "Analysis._resolve_method: a path returns %s, not an entry of a lookup table of the Analysis" % show(ret))
+        table, key = ret[1][2], ret[2]
+        tables.add(table)
+        # key shape
+        comps = key[1:] if key[0] == "tuple" else None
+        ok = comps is not None and len(comps) == 3 and all(_leaf_params(c) == {P[i]} for i, c in enumerate(comps))
+        sink.check("resolution", "lookup key", ok, f, "key %s" % _prender(key, P),
+                   "the lookup key of _resolve_method is %s; specification: a triple (class name, method name, descriptor) built from the three parameters in this order" % _prender(key, P),
+                   node=f.node, detail="key = (class_name, method_name, ''.join(descriptor))")
+        if not ok:
+            continue
+        absent = [c for c in st.conds if _norm_cond(c[0], c[1]) in (((("cmp", "in", key, ("attr", ROOT_SELF, table))), False),)]
+        stores = [e for e in st.events if e.kind == "store_sub" and e.base == ("attr", ROOT_SELF, table)]
+        news = [x for e in st.events if e.kind == "store_sub" for x in subterms(e.value) if isinstance(x, tuple) and x and x[0] == "new" and x[1] == "ExternalMethod"]
+        if not absent:
+            hit += 1
+            sink.check("resolution", "hit path", not stores and not news, f, "hit path of _resolve_method",
+                       "a path on which the key is not known to be absent stores into the table or creates an ExternalMethod: the analysed method is not returned as is",
+                       node=f.node, detail="returns the stored MethodAnalysis, creates nothing")
+            continue
+        miss += 1
+        inst = "miss path (%s)" % "; ".join("%s=%s" % (_prender(c, P)[:50], o) for c, o, _ in st.conds)
+        ok1 = len(stores) == 1 and stores[0].key == key
+        sink.check("resolution", inst + " one stub", ok1, f, "stub stores: %s" % ", ".join(_prender(e.key, P) for e in stores),
+                   "on a miss _resolve_method must store exactly one stub under the looked-up key (so that it is shared); it stores %d time(s): %s" % (
+                       len(stores), ", ".join("%s[%s]" % (table, _prender(e.key, P)) for e in stores) or "never"),
+                   node=stores[0].node if stores else f.node, detail="one store under the same key")
+        if not ok1:
+            continue
+        v = stores[0].value
+        ext = None
+        if v[0] == "new" and v[1] == "MethodAnalysis" and len(v[2]) == 2 and v[2][1][0] == "new" and v[2][1][1] == "ExternalMethod":
+            ext = v[2][1]
+        ok2 = ext is not None and tuple(ext[2]) == tuple(comps)
+        sink.check("resolution", inst + " stub identity", ok2, f, "stub %s" % _prender(v, P),
+                   "the stub stored on a miss is %s; specification: MethodAnalysis(None, ExternalMethod(class, name, descriptor)) with the components of the key in the same order" % _prender(v, P),
+                   node=stores[0].node, detail="ExternalMethod(%s)" % ", ".join(_prender(c, P) for c in comps))
+        if ext is not None:
+            _check_external_method_ctor(sink, eng, f)
+    sink.count("resolve_hit_paths", hit)
+    sink.count("resolve_miss_paths", miss)
+    sink.floor("resolve_hit_paths", 1)
+    sink.floor("resolve_miss_paths", 1)
+    sink.require(len(tables) == 1, "Analysis._resolve_method uses more than one table: %s" % sorted(tables))
+    table = tables.pop()
+    # ---- the same table is filled by Analysis.add with the same key shape ---------------------------
+    fa = eng.func(ANALYSIS, "Analysis.add")
+    sink.analysed(fa)
+    n = 0
+    for st in Exec(eng, root_cls=A).run(fa):
+        if st.raised:
+            continue
+        for e in st.events:
+            if e.kind == "store_sub" and e.base == ("attr", ROOT_SELF, table):
+                n += 1
+                key = e.key
+                comps = key[1:] if key[0] == "tuple" else ()
+                meth = None
+                if e.value[0] == "sub" and e.value[1] == ("attr", ROOT_SELF, "methods"):
+                    meth = e.value[2]
+                roles = [_add_key_role(c, meth) for c in comps]
+                ok = roles == ["class_name", "name", "descriptor"]
+                sink.check("resolution", "Analysis.add key", ok, fa, "add key (%s)" % ", ".join(r or "?" for r in roles),
+                           "Analysis.add fills %s with the key (%s); _resolve_method looks up (class_name, name, descriptor)" % (
+                               table, ", ".join(show(c) for c in comps)), node=e.node,
+                           detail="add key = (class name, method name, str(descriptor)) of the method stored")
+        break
+    sink.count("add_table_stores", n)
+    sink.floor("add_table_stores", 1)
+    sink.assume("str(EncodedMethod.get_descriptor()) and ''.join(MethodIdItem.get_proto()) denote the same descriptor string")
+    return table
+
+
+def _prender(t, P):
+    names = {P[0]: "class_name", P[1]: "method_name", P[2]: "descriptor"} if len(P) >= 3 else {}
+
+    def rd(x):
+        if x in names:
+            return names[x]
+        if not isinstance(x, tuple) or not x:
+            return repr(x)
+        if x[0] in ("tuple", "list"):
+            return "(" + ", ".join(rd(y) for y in x[1:]) + ")"
+        if x[0] == "call":
+            return "%s(%s)" % (rd(x[1]), ", ".join(rd(a) for a in x[2]))
+        if x[0] == "attr":
+            return "%s.%s" % (rd(x[1]), x[2])
+        if x[0] == "new":
+            return "%s(%s)" % (x[1], ", ".join(rd(a) for a in x[2]))
+        if x[0] == "cmp":
+            return "%s %s %s" % (rd(x[2]), x[1], rd(x[3]))
+        if x[0] == "sub":
+            return "%s[%s]" % (rd(x[1]), rd(x[2]))
+        if x[0] == "not":
+            return "not %s" % rd(x[1])
+        return show(x)
+    return rd(t)
+
+
+def _add_key_role(c, meth):
+    """role of a component of the key Analysis.add stores: class_name / name / descriptor of `meth`"""
+    if c[0] == "call" and c[1] == ("builtin", "str") and len(c[2]) == 1:
+        c = c[2][0]
+    mc = is_mcall(c)
+    if not mc or mc[2]:
+        return None
+    recv, name, _ = mc
+    if meth is not None and recv == meth:
+        return {"get_name": "name", "get_descriptor": "descriptor", "get_class_name": "class_name"}.get(name)
+    # the class whose get_methods() yields the method
+    if meth is not None and meth[0] == "elem":
+        it = is_mcall(meth[1], "get_methods")
+        if it and it[0] == recv and name == "get_name":
+            return "class_name"
+    return None
+
+
+def _check_external_method_ctor(sink, eng, f):
+    c = eng.mod(ANALYSIS).cls("ExternalMethod")
+    init = eng.lookup(c, "__init__")
+    sink.require(init is not None, "ExternalMethod.__init__ vanished")
+    params = init.params()[1:]
+    attr_of = {}
+    for n in walk_no_nested(init.node):
+        if isinstance(n, ast.Assign) and isinstance(n.value, ast.Name) and n.value.id in params:
+            for t in n.targets:
+                if isinstance(t, ast.Attribute):
+                    attr_of[n.value.id] = t.attr
+    got = []
+    for p in params[:3]:
+        a = attr_of.get(p)
+        g = None
+        for name in ("get_class_name", "get_name", "get_descriptor"):
+            fn = eng.lookup(c, name)
+            if fn is not None and any(isinstance(r, ast.Return) and isinstance(r.value, ast.Attribute) and r.value.attr == a for r in ast.walk(fn.node)):
+                g = name
+        got.append(g)
+    sink.check("resolution", "ExternalMethod components", got == ["get_class_name", "get_name", "get_descriptor"], init,
+               "ExternalMethod(%s)" % ", ".join(str(g) for g in got),
+               "ExternalMethod.__init__ maps its positional parameters to %s; _resolve_method passes (class, name, descriptor)" % got,
+               detail="positional parameters feed get_class_name / get_name / get_descriptor")
+
+
+# ===========================================================================
+# rule core 4: get_call_graph
+# ===========================================================================
+def rule_call_graph(sink, eng: Engine, getters):
+    m = eng.mod(ANALYSIS)
+    A = m.cls("Analysis")
+    f = eng.func(ANALYSIS, "Analysis.get_call_graph")
+    sink.analysed(f)
+    params = {("param", f.qualname, p): p for p in f.params()}
+    n_edges = 0
+    for st in Exec(eng, root_cls=A).run(f):
+        if st.raised:
+            continue
+        for e in st.events:
+            if e.kind != "call" or e.name != "add_edge" or len(e.args) < 2:
+                continue
+            n_edges += 1
+            src, dst = e.args[0], e.args[1]
+            # source: the EncodedMethod of an enumerated MethodAnalysis
+            ma = src[1] if src[0] == "attr" and src[2] == "method" else (is_mcall(src, "get_method")[0] if is_mcall(src, "get_method") else None)
+            ok_src = ma is not None and ma[0] == "elem" and is_mcall(ma[1]) is not None and is_mcall(ma[1])[1] == "find_methods" and is_mcall(ma[1])[0] == ROOT_SELF
+            sink.check("call-graph", "edge source", ok_src, f, "add_edge source %s" % show(src),
+                       "the source of a call-graph edge is %s; specification: the method of the MethodAnalysis being enumerated" % show(src), node=e.node,
+                       detail="source = m.get_method() for m in find_methods(...)")
+            # destination: the method of component `i` of an element of m.get_xref_to()
+            cal = dst[1] if dst[0] == "attr" and dst[2] == "method" else (is_mcall(dst, "get_method")[0] if is_mcall(dst, "get_method") else None)
+            ok_dst = False
+            why = "the destination of a call-graph edge is %s" % show(dst)
+            if cal is not None and cal[0] == "item" and cal[1][0] == "elem":
+                coll = cal[1][1]
+                if coll[0] == "attr" and coll[1] == ma:
+                    g = getters.get(("MethodAnalysis", coll[2]))
+                    if g == "get_xref_to" and cal[2] == 1:
+                        ok_dst = True
+                    elif g != "get_xref_to":
+                        why = "call-graph edges are drawn from %s(), specification: from get_xref_to() of the same method" % (g or coll[2])
+                    else:
+                        why = ("call-graph edges use component %d of the get_xref_to() tuples as the callee; _create_xref records "
+                               "(class, method, offset), the callee is component 1" % cal[2])
+                else:
+                    why = "call-graph edges of a method are drawn from the xrefs of a different object (%s)" % show(coll)
+            sink.check("call-graph", "edge destination", ok_dst, f, "add_edge destination %s" % _cg_render(dst), why, node=e.node,
+                       detail="destination = callee.method for (class, callee, offset) in m.get_xref_to()")
+            # filters on the way to the edge
+            for c in e.conds:
+                atom, truthy = _norm_cond(c[0], c[1])
+                allowed = False
+                if any(mentions(atom, p) and n == "no_isolated" for p, n in params.items()):
+                    allowed = True
+                mc = is_mcall(atom, "has_edge") if isinstance(atom, tuple) else None
+                if mc and tuple(mc[2][:2]) == (src, dst) and not truthy:
+                    allowed = True
+                sink.check("call-graph", "edge filter", allowed, f, "edge only if %s is %s" % (_cg_render(atom), truthy),
+                           "a call-graph edge for a reported callee is only added when `%s` is %s; the only filters allowed are the documented "
+                           "no_isolated option and the duplicate-edge test" % (_cg_render(atom), truthy), node=c[2],
+                           detail="only no_isolated / has_edge filters")
+    sink.count("call_graph_edges", n_edges)
+    sink.floor("call_graph_edges", 1)
+
+
+def _cg_render(t):
+    s = show(t)
+    return s if len(s) < 160 else s[:157] + "..."
+
+
+# ===========================================================================
+# rule core 5 (C16): effect discipline of Analysis.add / create_xref, layering
+# ===========================================================================
+def _table_uses(t, tables):
+    """sub-terms  self.<table>  of t together with the way they are used:
+    yields (table, 'elem', key) for self.T[key] / self.T.get(key), (table, 'other', None) otherwise"""
+    out = []
+
+    def walk(x, parent=None):
+        if not isinstance(x, tuple) or not x:
+            return
+        if x[0] == "attr" and x[1] == ROOT_SELF and x[2] in tables:
+            if parent is not None and parent[0] == "sub" and parent[1] == x:
+                out.append((x[2], "elem", parent[2]))
+            elif parent is not None and is_mcall(parent, "get") and parent[1][1] == x and parent[2]:
+                out.append((x[2], "elem", parent[2][0]))
+            else:
+                out.append((x[2], "other", None))
+            return
+        for y in (x[1:] if isinstance(x[0], str) else x):
+            if isinstance(y, tuple):
+                walk(y, x)
+    walk(t)
+    return out
+
+
+def rule_add_effects(sink, eng: Engine):
+    m = eng.mod(ANALYSIS)
+    A = m.cls("Analysis")
+    f = eng.func(ANALYSIS, "Analysis.add")
+    sink.analysed(f)
+    ps = f.params()
+    sink.require(len(ps) >= 2, "Analysis.add: expected (self, vm)")
+    VM = ("param", f.qualname, ps[1])
+    sts = [s for s in Exec(eng, root_cls=A).run(f) if not s.raised]
+    sink.require(sts, "Analysis.add has no normal path")
+    # the tables of the Analysis: every attribute of self that is stored into by key or mutated
+    tables = set()
+    for st in sts:
+        for e in st.events:
+            if e.kind == "store_sub" and e.base[0] == "attr" and e.base[1] == ROOT_SELF:
+                tables.add(e.base[2])
+            if e.kind == "call" and e.name in MUTATORS and e.recv is not None and e.recv[0] == "attr" and e.recv[1] == ROOT_SELF:
+                tables.add(e.recv[2])
+    seen = set()
+    for st in sts:
+        fresh = {}
+        for e in st.events:
+            if e.kind == "store_sub" and e.base[0] == "attr" and e.base[1] == ROOT_SELF:
+                table = e.base[2]
+                inst = "self.%s[...] store" % table
+                key, val = e.key, e.value
+                # (a) key derived from the item itself
+                item_derived = any(isinstance(x, tuple) and x and x[0] == "elem" and mentions(x, VM) for x in subterms(key))
+                positional = any(isinstance(x, tuple) and x and x[0] in ("enumidx", "carried") for x in subterms(key)) or bool(_table_uses(key, tables)) \
+                    or any(x == ("builtin", "len") for x in subterms(key))
+                ok_key = item_derived and not positional
+                k = (table, "key", key)
+                if k not in seen:
+                    seen.add(k)
+                    sink.count("keyed_stores")
+                    sink.check("effects", inst + " key", ok_key, f, "self.%s[%s]" % (table, _vrender(key, VM)),
+                               "Analysis.add stores into self.%s under the key %s, which is %s; with several DEX files the result then depends on the add order" % (
+                                   table, _vrender(key, VM), "positional / derived from the tables' current content" if positional else "not derived from the item being added"),
+                               node=e.node, detail="key %s is derived from the added item only" % _vrender(key, VM))
+                # (b) value: a fresh object, or an alias of one stored freshly on this path
+                ok_val = val[0] == "new"
+                if not ok_val and val[0] == "sub" and val[1][0] == "attr" and val[1][1] == ROOT_SELF:
+                    ok_val = fresh.get((val[1][2], val[2])) is True
+                k = (table, "val", val)
+                if k not in seen:
+                    seen.add(k)
+                    sink.check("effects", inst + " value", ok_val, f, "self.%s[..] = %s" % (table, _vrender(val, VM)),
+                               "Analysis.add stores %s into self.%s: not an object freshly created for the added item (content of earlier DEX files leaks into the entry)" % (
+                                   _vrender(val, VM), table), node=e.node, detail="value is a fresh object")
+                fresh[(table, key)] = val[0] == "new" or ok_val
+                # (c) no guard that reads the tables (first-wins / last-wins on other DEX content)
+                for c in e.conds:
+                    for (tb, how, kk) in _table_uses(c[0], tables):
+                        okc = how == "elem" and fresh.get((tb, kk)) is True
+                        kx = (table, "guard", c[0])
+                        if okc or kx in seen:
+                            continue
+                        seen.add(kx)
+                        sink.check("effects", inst + " guard", False, f, "store into self.%s guarded by %s" % (table, _vrender(_norm_cond(c[0], c[1])[0], VM)),
+                                   "the store into self.%s is guarded by `%s`, which reads self.%s: what is stored depends on the DEX files added before" % (
+                                       table, _vrender(c[0], VM), tb), node=c[2])
+            elif e.kind == "store_attr" and e.base == ROOT_SELF:
+                k = ("attr", e.name)
+                if k not in seen:
+                    seen.add(k)
+                    sink.check("effects", "self.%s assignment" % e.name, False, f, "self.%s = %s" % (e.name, _vrender(e.value, VM)),
+                               "Analysis.add overwrites the attribute self.%s (last-wins state across DEX files)" % e.name, node=e.node)
+            elif e.kind == "call" and e.name in MUTATORS and e.recv is not None and e.recv[0] == "attr" and e.recv[1] == ROOT_SELF:
+                ok = e.name == "append" and tuple(e.args) == (VM,)
+                k = ("mut", e.recv[2], e.name, e.args)
+                if k not in seen:
+                    seen.add(k)
+                    sink.count("positional_effects")
+                    sink.check("effects", "self.%s.%s" % (e.recv[2], e.name), ok, f, "self.%s.%s(%s)" % (e.recv[2], e.name, ", ".join(_vrender(a, VM) for a in e.args)),
+                               "Analysis.add has the positional effect self.%s.%s(%s); the only order-dependent state allowed is the list of DEX objects" % (
+                                   e.recv[2], e.name, ", ".join(_vrender(a, VM) for a in e.args)), node=e.node,
+                               detail="the only positional effect: the DEX object is appended to the list create_xref enumerates")
+    sink.floor("keyed_stores", 4)
+    sink.floor("positional_effects", 1)
+    return tables
+
+
+def _vrender(t, VM):
+    s = show(t)
+    return s if len(s) < 200 else s[:197] + "..."
+
+
+def rule_create_xref_driver(sink, eng: Engine):
+    """create_xref hands every class of every added DEX to _create_xref and uses self.vms for nothing else"""
+    m = eng.mod(ANALYSIS)
+    A = m.cls("Analysis")
+    f = eng.func(ANALYSIS, "Analysis.create_xref")
+    sink.analysed(f)
+    n = 0
+    for st in Exec(eng, root_cls=A, no_inline=("_create_xref",)).run(f):
+        if st.raised:
+            continue
+        for e in st.events:
+            if e.kind == "call" and e.name == "_create_xref" and e.recv == ROOT_SELF:
+                n += 1
+                a = e.args[0] if e.args else None
+                ok = False
+                if a is not None and a[0] == "elem":
+                    mc = is_mcall(a[1], "get_classes")
+                    ok = bool(mc) and not mc[2] and mc[0][0] == "elem" and mc[0][1][0] == "attr" and mc[0][1][1] == ROOT_SELF
+                sink.check("effects", "create_xref enumerates", ok, f, "_create_xref(%s)" % show(a),
+                           "create_xref passes %s to _create_xref; specification: every class of every added DEX, the DEX list being used for enumeration only" % show(a),
+                           node=e.node, detail="argument = each class of each DEX in self.vms")
+                for x in e.args[1:]:
+                    sink.check("effects", "create_xref extra argument", False, f, "_create_xref(.., %s)" % show(x),
+                               "create_xref passes additional per-DEX state (%s) to _create_xref" % show(x), node=e.node)
+    sink.count("create_xref_calls", n)
+    sink.floor("create_xref_calls", 1)
+
+
+def rule_xref_effects(sink, xm: XrefModel, extra_paths=()):
+    """effects of _create_xref (and _resolve_method): set-adds into the xref sets and create-if-absent keyed by names"""
+    root = xm.root
+    R = xm.roles
+    xref_attrs = {a for (_, a) in xm.getters}
+    seen = set()
+    groups = [(root, [p.state for p in xm.paths if not p.state.raised])] + list(extra_paths)
+    for func, states in groups:
+        for st in states:
+            for e in st.events:
+                if e.kind == "store_sub" and e.base[0] == "attr" and e.base[1] == ROOT_SELF:
+                    table, key, val = e.base[2], e.key, e.value
+                    k = (func.qualname, table, key, val)
+                    absent = any(_norm_cond(c[0], c[1]) == (("cmp", "in", key, e.base), False) for c in e.conds)
+                    fresh_key = key[0] == "new"
+                    val_ok = val[0] == "new" and _value_from_key(val, key)
+                    if k in seen:
+                        continue
+                    seen.add(k)
+                    sink.count("create_if_absent")
+                    rk = (R.render(key) if func is root else show(key))
+                    sink.check("effects", "%s self.%s create-if-absent" % (func.name, table), (absent or fresh_key) and val_ok, func,
+                               "self.%s[%s] = %s" % (table, rk, R.render(val) if func is root else show(val)),
+                               "%s stores into self.%s[%s] %s: with several DEX files the entry then depends on the order of processing" % (
+                                   func.qualname, table, rk,
+                                   "without testing that the key is absent" if not (absent or fresh_key) else "a value that is not a fresh object built from the key"),
+                               node=e.root_node(), detail="create-if-absent keyed by name")
+                elif e.kind in ("store_sub", "store_attr"):
+                    b = e.base
+                    tgt = b[2] if (e.kind == "store_sub" and b[0] == "attr") else (e.name if e.kind == "store_attr" else None)
+                    if tgt in xref_attrs:
+                        k = (func.qualname, "xrefstore", tgt)
+                        if k in seen:
+                            continue
+                        seen.add(k)
+                        sink.check("effects", "%s xref set overwritten" % tgt, False, func, "%s = ..." % tgt,
+                                   "the xref container %s is assigned rather than added to (via %s): earlier records are lost, the result depends on the order of processing" % (
+                                       tgt, "/".join(e.chain())), node=e.root_node())
+                elif e.kind == "call" and e.name in MUTATORS and e.name != "add" and e.recv is not None:
+                    r = e.recv
+                    tgt = r[2] if r[0] == "attr" else (r[1][2] if r[0] == "sub" and r[1][0] == "attr" else None)
+                    if tgt in xref_attrs:
+                        k = (func.qualname, "xrefmut", tgt, e.name)
+                        if k in seen:
+                            continue
+                        seen.add(k)
+                        sink.check("effects", "%s.%s" % (tgt, e.name), False, func, "%s.%s(...)" % (tgt, e.name),
+                                   "the xref container %s is modified with %s() (via %s); only set.add commutes across processing orders" % (tgt, e.name, "/".join(e.chain())),
+                                   node=e.root_node())
+    sink.floor("create_if_absent", 2)
+
+
+def _value_from_key(val, key):
+    """every non-constant leaf of the value occurs in the key"""
+    leaves_k = set(subterms(key))
+
+    def ok(x):
+        if not isinstance(x, tuple) or not x:
+            return True
+        if x in leaves_k or x[0] == "const":
+            return True
+        if x[0] == "new":
+            return all(ok(a) for a in x[2])
+        if x[0] in ("tuple", "list"):
+            return all(ok(a) for a in x[1:])
+        if x[0] == "call":
+            return all(ok(a) for a in x[2]) and (x[1][0] != "attr" or ok(x[1][1]))
+        return False
+    return ok(val)
+
+
+def rule_layering(sink, xm: XrefModel, resolve_states=()):
+    """inside _create_xref / _resolve_method only *reference decoding* may go through a single DEX;
+    definitions must come from analysis-global tables"""
+    root = xm.root
+    R = xm.roles
+    seen = set()
+    n_dec = 0
+
+    def per_dex(recv):
+        r = R.role(recv)
+        if r is not None and r[0] in ("VM", "CM"):
+            return r
+        for x in subterms(recv):
+            rx = R.role(x)
+            if rx is not None and rx[0] in ("VM", "CM"):
+                return rx
+        return None
+
+    for p in xm.paths:
+        if p.state.raised:
+            continue
+        for e in p.state.events:
+            if e.kind != "call" or e.recv is None:
+                continue
+            r = R.role(e.recv)
+            if r is None or r[0] not in ("VM", "CM"):
+                continue
+            k = (r, e.name)
+            if k in seen:
+                continue
+            seen.add(k)
+            call_r = R.render(e.value)
+            if r == ("VM", "positional"):
+                sink.check("layering", "%s through a fixed DEX" % e.name, False, root, call_r,
+                           "%s is called on a DEX picked by position from self.vms, not on the DEX the instruction belongs to" % e.name, node=e.root_node())
+                continue
+            if e.name in DECODERS:
+                n_dec += 1
+                sink.ob("layering", "%s on the instruction's DEX" % e.name, True, "reference decoding %s stays per-DEX" % call_r)
+            elif _is_definition_lookup(e.name):
+                sink.check("layering", "definition lookup %s" % e.name, False, root, call_r,
+                           "%s looks a *definition* up in the single DEX that contains the instruction: a field/method/class defined in another DEX of the "
+                           "same analysis is not found, so the result differs from the single-DEX layout" % call_r, node=e.root_node())
+            else:
+                raise AnalysisError("%s: unclassified per-DEX call %s (neither reference decoding nor a known definition lookup)" % (root.qualname, call_r))
+    for func, states in resolve_states:
+        for st in states:
+            for e in st.events:
+                if e.kind == "call" and e.recv is not None and _is_definition_lookup(e.name) and not mentions(e.recv, ROOT_SELF):
+                    sink.check("layering", "definition lookup %s" % e.name, False, func, show(e.value),
+                               "%s resolves a definition through %s instead of the analysis-global tables" % (func.qualname, show(e.value)), node=e.node)
+    sink.count("reference_decoders", n_dec)
+    sink.floor("reference_decoders", 4)
+
+
+def rule_recorders_commute(sink, eng: Engine, getters):
+    """every xref container is created as a set / defaultdict(set) (so that .add is idempotent and commutative)"""
+    m = eng.mod(ANALYSIS)
+    n = 0
+    for (cn, attr), g in sorted(getters.items()):
+        c = m.cls(cn)
+        init = eng.lookup(c, "__init__")
+        sink.require(init is not None, "%s.__init__ vanished" % cn)
+        val = None
+        for node in walk_no_nested(init.node):
+            if isinstance(node, ast.Assign):
+                for t in node.targets:
+                    if isinstance(t, ast.Attribute) and t.attr == attr and isinstance(t.value, ast.Name) and t.value.id == "self":
+                        val = node.value
+        ok = False
+        if isinstance(val, ast.Call):
+            fn = ast.unparse(val.func).split(".")[-1]
+            if fn == "set" and not val.args:
+                ok = True
+            if fn == "defaultdict" and len(val.args) == 1 and ast.unparse(val.args[0]) == "set":
+                ok = True
+        n += 1
+        sink.check("effects", "%s.%s container" % (cn, attr), ok, init, "self.%s = %s" % (attr, ast.unparse(val) if val is not None else "?"),
+                   "%s.%s (returned by %s) is initialised as %s; only sets make the order of recording irrelevant" % (
+                       cn, attr, g, ast.unparse(val) if val is not None else "nothing"), node=val,
+                   detail="%s is a set" % attr)
+    sink.count("xref_containers", n)
+    sink.floor("xref_containers", 13)
+
+
+# ===========================================================================
+# rule core 6 (C40): offsets
+# ===========================================================================
+def rule_fact_offsets(sink, xm: XrefModel):
+    """every offset component of every xref record is the first loop variable of get_instructions_idx()"""
+    R = xm.roles
+    seen = {}
+    for p in xm.paths:
+        if p.state.raised:
+            continue
+        for f in p.facts:
+            if not f.tup:
+                continue
+            k = (f.site(), f.r_tup[-1], f.tup[-1])
+            if k in seen:
+                continue
+            seen[k] = True
+            got = f.r_tup[-1]
+            if got is None:
+                raise AnalysisError("%s: cannot classify the offset component %s of %s.%s()" % (xm.root.qualname, R.render(f.tup[-1]), f.owner_cls, f.getter))
+            sink.count("offset_components")
+            via = "/".join(f.ev.chain()[1:]) or "direct"
+            sink.check("offset-provenance", "%s.%s via %s" % (f.owner_cls, f.getter, via), got == OFFR, xm.root,
+                       "%s.%s offset = %s" % (f.owner_cls, f.getter, R.rname(got) or repr(got)),
+                       "the offset recorded into %s.%s() is %s; specification: the offset get_instructions_idx() yields with the instruction (via %s)" % (
+                           f.owner_cls, f.getter, R.rname(got) or repr(got), via), node=f.ev.root_node(),
+                       detail="offset = first loop variable of current_method.get_instructions_idx()")
+    sink.floor("offset_components", 15)
+    # the second loop variable is the instruction whose opcode is dispatched on: by construction of Roles (INS/OFF from one pair)
+
+
+def _is_length_of(t, ins):
+    if t == ("attr", ins, "length"):
+        return True
+    mc = is_mcall(t, "get_length")
+    return bool(mc) and mc[0] == ins and not mc[2]
+
+
+ACCUMULATORS = [
+    (DEX, "EncodedMethod.get_instructions_idx"),
+    (DEX, "DCode.get_ins_off"),
+    (DEX, "DCode.off_to_pos"),
+    (ANALYSIS, "DEXBasicBlock.get_instructions"),
+]
+
+
+def rule_accumulators(sink, eng: Engine):
+    """the four places that recompute instruction offsets all use  off(0) = 0, off(n+1) = off(n) + length(ins n)
+    and expose/compare the offset *before* adding the length"""
+    for rel, qn in ACCUMULATORS:
+        f = eng.func(rel, qn)
+        sink.analysed(f)
+        cls = f.cls
+        sts = Exec(eng, root_cls=cls).run(f)
+        n_loops = 0
+        done = set()
+        for st in sts:
+            if st.raised:
+                continue
+            for e in st.events:
+                if e.kind != "iter_end" or not e.key:
+                    continue
+                loop = e.node
+                elem = None
+                # the loop element
+                for name, (init, endv) in e.key.items():
+                    carried = ("carried", name, loop.lineno)
+                    delta = lin_add(endv, carried, -1) if endv is not None else None
+                    dl = lin_of(delta) if delta is not None else None
+                    if dl is None:
+                        continue
+                    atoms = list(dl[0].items())
+                    if not (len(atoms) == 1 and dl[1] == 0):
+                        if dl[1] == 1 and not atoms:
+                            continue  # a plain counter (nb += 1)
+                        if not atoms:
+                            # constant stride: not a length accumulator unless the name is compared with an offset
+                            pass
+                    # is this the offset accumulator?  its increment mentions an instruction length, or it is yielded / compared
+                    looks = any(_is_len_term(a) for a, _ in atoms) or _used_as_offset(st, carried)
+                    if not looks:
+                        continue
+                    key = (qn, name, "inc", delta)
+                    if key in done:
+                        continue
+                    done.add(key)
+                    n_loops += 1
+                    ins = _loop_elem(loop, st, e)
+                    ok_inc = len(atoms) == 1 and atoms[0][1] == 1 and dl[1] == 0 and ins is not None and _is_length_of(atoms[0][0], ins)
+                    sink.check("accumulator", "%s increment" % qn, ok_inc, f, "%s: offset += %s" % (qn, _arender(delta, ins)),
+                               "%s advances its offset by %s per instruction; specification: by the length of the instruction just visited" % (qn, _arender(delta, ins)),
+                               node=loop, detail="offset += length of the visited instruction")
+                    sink.check("accumulator", "%s start" % qn, init == const(0), f, "%s: offset starts at %s" % (qn, show(init)),
+                               "%s starts its offset at %s, specification: 0" % (qn, show(init)), node=loop, detail="offset starts at 0")
+                    # uses inside the body see the offset before the increment
+                    for ev in st.events:
+                        terms = []
+                        if ev.kind in ("yield", "return") and ev.value is not None:
+                            terms.append(ev.value)
+                        for c in ev.conds:
+                            terms.append(c[0])
+                        for t in terms:
+                            for x in subterms(t):
+                                if isinstance(x, tuple) and x and x[0] == "lin" and any(a == carried for a, _ in x[1]):
+                                    kk = (qn, "use", x)
+                                    if kk in done:
+                                        continue
+                                    done.add(kk)
+                                    sink.check("accumulator", "%s use" % qn, False, f, "%s: uses %s" % (qn, _arender(x, ins).replace(show(carried), "offset")),
+                                               "%s exposes/compares %s instead of the offset of the instruction being visited (offset used after or with an adjustment)" % (
+                                                   qn, _arender(x, ins).replace(show(carried), "offset")), node=ev.node)
+        sink.count("accumulators", 1 if n_loops else 0)
+        sink.require(n_loops >= 1, "%s: no offset accumulator loop found (anchor changed shape)" % qn)
+    sink.floor("accumulators", 4)
+    # yield order of get_instructions_idx: (offset, instruction)
+    f = eng.func(DEX, "EncodedMethod.get_instructions_idx")
+    n = 0
+    for st in Exec(eng, root_cls=f.cls).run(f):
+        for e in st.events:
+            if e.kind == "yield":
+                n += 1
+                v = e.value
+                ok = v[0] == "tuple" and len(v) == 3 and v[1][0] == "carried" and v[2][0] == "elem"
+                sink.check("accumulator", "get_instructions_idx yields (offset, instruction)", ok, f, "yield %s" % show(v).replace("carried", "offset"),
+                           "get_instructions_idx yields %s; specification: (offset before the instruction, instruction)" % show(v), node=e.node,
+                           detail="yield (offset, instruction) with the offset taken before the increment")
+    sink.count("idx_yields", n)
+    sink.floor("idx_yields", 1)
+
+
+def _is_len_term(a):
+    return (isinstance(a, tuple) and ((a[0] == "attr" and a[2] == "length") or bool(is_mcall(a, "get_length"))))
+
+
+def _used_as_offset(st, carried):
+    for ev in st.events:
+        if ev.kind == "yield" and ev.value is not None and mentions(ev.value, carried):
+            return True
+        for c in ev.conds:
+            if mentions(c[0], carried):
+                return True
+    return False
+
+
+def _loop_elem(loop, st, e):
+    """the term bound to the loop variable of `loop` (an element of its iterable)"""
+    for ev in st.events:
+        pass
+    # the element term is ("elem", <iter term>); recover it from any term mentioning an elem on this path
+    cands = set()
+    for ev in st.events:
+        for t in (ev.value,) + tuple(ev.args) + tuple(c[0] for c in ev.conds) + tuple(v for pair in (ev.key.values() if isinstance(ev.key, dict) else ()) for v in pair if v is not None):
+            if isinstance(t, tuple):
+                for x in subterms(t):
+                    if isinstance(x, tuple) and x and x[0] == "elem":
+                        cands.add(x)
+    return next(iter(cands)) if len(cands) == 1 else None
+
+
+def _arender(t, ins):
+    s = show(t)
+    if ins is not None:
+        s = s.replace(show(ins), "ins")
+    return s
+
+
+# ---- payload lookups ----------------------------------------------------------------------------------------
+PAYLOAD_USERS = {k for k, o in dalvik.OPCODES.items() if o[1] == "31t"}  # fill-array-data, packed-switch, sparse-switch
+SWITCH_OPS = {k for k, o in dalvik.OPCODES.items() if o[3] == "switch"}
+PAYLOAD_CLASSES = {"PackedSwitch", "SparseSwitch"}
+
+
+class OffsetSite:
+    def __init__(self, eng, rel, qn, root_cls, ins_param_idx, base_kind):
+        self.eng = eng
+        self.f = eng.func(rel, qn)
+        self.root_cls = root_cls
+        ps = self.f.params()
+        self.ins = ("param", self.f.qualname, ps[ins_param_idx])
+        self.base_kind = base_kind
+        if base_kind == "param":
+            self.base = ("param", self.f.qualname, ps[ins_param_idx + 1])
+            self.method = ("param", self.f.qualname, ps[ins_param_idx + 2])
+        else:
+            self.base = ("attr", ROOT_SELF, "end")
+            self.method = ("attr", ROOT_SELF, "method")
+        self.refoff = mk_mcall(self.ins, "get_ref_off")
+        self.runs = []
+        parts = eng.op_partition([self.f], OP_DOMAIN)
+        arith = False
+        for rep, members in parts:
+            ex = Exec(eng, op=rep, root_cls=root_cls, no_inline=("get_ins_off", "get_targets"))
+            sts = [s for s in ex.run(self.f) if not s.raised]
+            arith = arith or ex.op_arith
+            self.runs.append((members, sts))
+        if arith:
+            self.runs = []
+            for k in OP_DOMAIN:
+                ex = Exec(eng, op=k, root_cls=root_cls, no_inline=("get_ins_off", "get_targets"))
+                self.runs.append(([k], [s for s in ex.run(self.f) if not s.raised]))
+
+    def names(self):
+        return {self.base: "insn_offset", self.refoff: "ref_off", mk_mcall(self.ins, "get_length"): "insn_length",
+                self.ins: "insn", self.method: "method"}
+
+    def render(self, t):
+        names = self.names()
+
+        def rd(x, d=0):
+            if x in names:
+                return names[x]
+            if not isinstance(x, tuple) or not x or d > 12:
+                return show(x)
+            k = x[0]
+            if k == "lin":
+                parts = [rd(a, d + 1) if c == 1 else "%d*%s" % (c, rd(a, d + 1)) for a, c in sorted(x[1], key=lambda ac: rd(ac[0], d + 1))]
+                if x[2]:
+                    parts.append(str(x[2]))
+                return " + ".join(parts)
+            if k == "binop":
+                return "((%s) %s %s)" % (rd(x[2], d + 1), x[1], rd(x[3], d + 1))
+            if k == "ifexp":
+                return "(%s if %s else %s)" % (rd(x[2], d + 1), rd(x[1], d + 1), rd(x[3], d + 1))
+            if k == "cmp":
+                return "%s %s %s" % (rd(x[2], d + 1), x[1], rd(x[3], d + 1))
+            if k == "call":
+                return "%s(%s)" % (rd(x[1], d + 1), ", ".join(rd(a, d + 1) for a in x[2]))
+            if k == "attr":
+                return "%s.%s" % (rd(x[1], d + 1), x[2])
+            if k == "elem":
+                return "<element of %s>" % rd(x[1], d + 1)
+            if k in ("tuple", "list"):
+                return "[" + ", ".join(rd(y, d + 1) for y in x[1:]) + "]"
+            return show(x)
+        return rd(t)
+
+    def is_code_unit(self, a):
+        if is_mcall(a, "get_ref_off"):
+            return True
+        if isinstance(a, tuple) and a and a[0] == "elem" and is_mcall(a[1], "get_targets"):
+            return True
+        return False
+
+    def is_byte(self, a):
+        return a == self.base or _is_len_term(a) or a == ("attr", ROOT_SELF, "end") or (isinstance(a, tuple) and a and a[0] == "carried")
+
+
+def rule_payload(sink, eng: Engine):
+    m = eng.mod(ANALYSIS)
+    sites = [
+        ("DEXBasicBlock.push", OffsetSite(eng, ANALYSIS, "DEXBasicBlock.push", m.cls("DEXBasicBlock"), 1, "self"), PAYLOAD_USERS),
+        ("determineNext", OffsetSite(eng, DEX, "determineNext", None, 0, "param"), SWITCH_OPS),
+    ]
+    canon = {}
+    for label, site, spec_ops in sites:
+        f = site.f
+        sink.analysed(f)
+        lookup_ops = set()
+        exp = mk_lin({site.base: 1, site.refoff: 2}, 0)
+        seen = set()
+        for members, sts in site.runs:
+            for st in sts:
+                for e in st.events:
+                    # ---- (3) payload address -----------------------------------------------------------------
+                    if e.kind == "call" and e.name == "get_ins_off" and e.args:
+                        lookup_ops.update(members)
+                        addr = e.args[0]
+                        ok = addr == exp
+                        k = (label, "addr", addr)
+                        canon.setdefault(label, set()).add(site.render(addr))
+                        if k not in seen:
+                            seen.add(k)
+                            sink.count("payload_lookups")
+                            sink.check("payload-address", "%s payload address" % label, ok, f, "get_ins_off(%s)" % site.render(addr),
+                                       "%s looks the payload up at %s; specification: at the offset the instruction encodes, insn_offset + 2*ref_off "
+                                       "(the sibling computation must agree)" % (label, site.render(addr)), node=e.node,
+                                       detail="payload address = insn_offset + 2*ref_off")
+                        recv = e.recv
+                        inner = is_mcall(recv, "get_bc")[0] if is_mcall(recv, "get_bc") else (recv[1] if recv[0] == "attr" and recv[2] == "code" else None)
+                        ok_r = inner is not None and bool(is_mcall(inner, "get_code")) and is_mcall(inner, "get_code")[0] == site.method
+                        k = (label, "recv", recv)
+                        if k not in seen:
+                            seen.add(k)
+                            sink.check("payload-address", "%s payload code object" % label, bool(ok_r), f, "%s.get_ins_off" % site.render(recv),
+                                       "%s searches the payload in %s, not in the code of the method the instruction belongs to" % (label, site.render(recv)),
+                                       node=e.node, detail="payload searched in method.get_code().get_bc()")
+                    # ---- (3) type check before use ------------------------------------------------------------------
+                    if e.kind == "call" and e.name == "get_targets" and e.recv is not None and is_mcall(e.recv, "get_ins_off"):
+                        data = e.recv
+
+                        def goal(a, data=data):
+                            if not (isinstance(a, tuple) and a and a[0] == "isinstance" and a[1] == data):
+                                return False
+                            ct = a[2]
+                            cs = ct[1:] if ct[0] in ("tuple", "list") else (ct,)
+                            return all(c[0] == "class" and c[1] in PAYLOAD_CLASSES for c in cs)
+                        ok = entails([(c[0], c[1]) for c in e.conds], goal)
+                        k = (label, "guard", tuple((c[0], c[1]) for c in e.conds))
+                        if k not in seen:
+                            seen.add(k)
+                            sink.count("payload_uses")
+                            sink.check("payload-type", "%s get_targets guarded" % label, ok, f, "get_targets() of the looked-up payload",
+                                       "%s calls get_targets() on whatever instruction sits at the payload address without first checking that it is a "
+                                       "PackedSwitch/SparseSwitch payload (conditions on the path: %s)" % (label, "; ".join("%s is %s" % (site.render(c[0])[:80], c[1]) for c in e.conds) or "none"),
+                                       node=e.node, detail="isinstance(payload, PackedSwitch|SparseSwitch) holds on the path")
+                    # ---- store of the link in push ------------------------------------------------------------------
+                    if e.kind == "store_sub" and e.base == ("attr", ROOT_SELF, "special_ins"):
+                        k = (label, "key", e.key)
+                        if k not in seen:
+                            seen.add(k)
+                            sink.check("payload-address", "%s link key" % label, e.key == site.base, f, "special_ins[%s]" % site.render(e.key),
+                                       "the payload link is stored under %s; specification: under the offset of the instruction itself" % site.render(e.key),
+                                       node=e.node, detail="special_ins key = offset of the instruction")
+                # ---- accumulator of push -----------------------------------------------------------------------------------
+                if site.base_kind == "self":
+                    for st in sts:
+                        endv = st.heap.get((ROOT_SELF, "end"))
+                        exp_end = mk_lin({site.base: 1, mk_mcall(site.ins, "get_length"): 1}, 0)
+                        k = (label, "end", endv)
+                        if k not in seen:
+                            seen.add(k)
+                            sink.count("block_end_updates")
+                            sink.check("accumulator", "push advances the block end", endv == exp_end, f, "self.end = %s" % (site.render(endv) if endv else "unchanged"),
+                                       "DEXBasicBlock.push leaves self.end = %s; specification: previous end + length of the pushed instruction" % (site.render(endv) if endv else "unchanged"),
+                                       node=f.node, detail="end += length of the pushed instruction")
+            # ---- (2) units ------------------------------------------------------------------------------------------------
+            for st in sts:
+                sinks = []
+                for e in st.events:
+                    if e.kind == "return" and e.value is not None and e.value[0] in ("list", "tuple"):
+                        sinks += [(x, e.node, "returned offset") for x in e.value[1:]]
+                    if e.kind == "call" and e.name in ("append", "extend", "get_ins_off") and e.args:
+                        a = e.args[0]
+                        if a[0] == "comp":
+                            a = a[1]
+                        sinks.append((a, e.node, "argument of %s" % e.name))
+                    if e.kind == "store_sub" and e.base == ("attr", ROOT_SELF, "special_ins"):
+                        sinks.append((e.key, e.node, "special_ins key"))
+                for t, node, what in sinks:
+                    for x in [t] + [y for y in subterms(t) if isinstance(y, tuple) and y and y[0] == "lin" and y is not t]:
+                        l = lin_of(x)
+                        if l is None:
+                            continue
+                        cu = [(a, c) for a, c in l[0].items() if site.is_code_unit(a)]
+                        if not cu:
+                            continue
+                        by = [(a, c) for a, c in l[0].items() if site.is_byte(a)]
+                        ok = all(c == 2 for _, c in cu) and all(c == 1 for _, c in by)
+                        k = (label, "unit", x)
+                        if k in seen:
+                            continue
+                        seen.add(k)
+                        sink.count("unit_terms")
+                        sink.check("units", "%s %s" % (label, what), ok, f, "%s: %s" % (what, site.render(x)),
+                                   "%s: %s mixes 16-bit code-unit values (get_ref_off / get_targets) with byte offsets without doubling them exactly once" % (label, site.render(x)),
+                                   node=node, detail="code units are doubled exactly once: %s" % site.render(x))
+        extra, missing = lookup_ops - spec_ops, spec_ops - lookup_ops
+        sink.check("payload-opcodes", "%s payload opcodes" % label, not extra and not missing, f,
+                   "%s payload lookup for {%s}" % (label, op_set_str(lookup_ops)),
+                   "%s looks a payload up for {%s}; the instructions that carry a payload offset here are {%s}" % (label, op_set_str(lookup_ops), op_set_str(spec_ops)),
+                   node=f.node, detail="payload looked up exactly for {%s}" % op_set_str(spec_ops))
+    sink.floor("payload_lookups", 2)
+    sink.floor("payload_uses", 1)
+    sink.floor("unit_terms", 4)
+    sink.floor("block_end_updates", 1)
+    a, b = canon.get("DEXBasicBlock.push", set()), canon.get("determineNext", set())
+    sink.ob("payload-address", "siblings agree", a == b, "push: %s / determineNext: %s" % (sorted(a), sorted(b)))
+
+
+def rule_basic_block_offsets(sink, eng: Engine):
+    """_create_basic_block hands determineNext the (instruction, offset) pair of one get_instructions_idx() step"""
+    m = eng.mod(ANALYSIS)
+    f = eng.func(ANALYSIS, "MethodAnalysis._create_basic_block")
+    sink.analysed(f)
+    n = 0
+    seen = set()
+    for st in Exec(eng, root_cls=m.cls("MethodAnalysis"), no_inline=("determineNext", "determineException", "push", "set_childs", "get_exception", "add")).run(f):
+        if st.raised:
+            continue
+        for e in st.events:
+            if e.kind == "call" and e.name == "determineNext" and len(e.args) >= 3:
+                k = tuple(e.args)
+                if k in seen:
+                    continue
+                seen.add(k)
+                n += 1
+                ins, off, meth = e.args[:3]
+                ok = (ins[0] == "item" and off[0] == "item" and ins[1] == off[1] and ins[2] == 1 and off[2] == 0 and ins[1][0] == "elem"
+                      and bool(is_mcall(ins[1][1], "get_instructions_idx")) and is_mcall(ins[1][1], "get_instructions_idx")[0] == meth)
+                sink.check("offset-provenance", "determineNext call", ok, f, "determineNext(%s, %s, %s)" % (show(ins), show(off), show(meth)),
+                           "_create_basic_block calls determineNext(%s, %s, %s); specification: the instruction and the offset of the same get_instructions_idx() step of that method" % (
+                               show(ins), show(off), show(meth)), node=e.node, detail="(ins, idx) come from one step of method.get_instructions_idx()")
+    sink.count("determine_next_calls", n)
+    sink.floor("determine_next_calls", 1)
+
+
+# ===========================================================================
+# further rule cores: REF_TYPE members, field lookup side (C14), field resolution (C14)
+# ===========================================================================
+def rule_ref_type_members(sink, eng: Engine, want):
+    """REF_TYPE members equal the opcode numbers of the instructions they are named after"""
+    m = eng.mod(ANALYSIS)
+    c = m.cls("REF_TYPE")
+    mem = eng.folder.enum_members(c)
+    n = 0
+    vals = set()
+    for name, v in mem.items():
+        if not isinstance(v, int):
+            continue
+        vals.add(int(v))
+        low = name.lower()
+        if low == "ref_new_instance":
+            mn = "new-instance"
+        elif low == "ref_class_usage":
+            mn = "const-class"
+        else:
+            mn = low.replace("_range", "/range").replace("_", "-")
+        exp = [k for k, o in dalvik.OPCODES.items() if o[0] == mn]
+        if not exp:
+            raise AnalysisError("REF_TYPE.%s: no Dalvik instruction is called %s" % (name, mn))
+        if exp[0] not in want:
+            continue
+        n += 1
+        sink.check("ref-type", "REF_TYPE.%s" % name, int(v) == exp[0], _EnumAt(m, c), "REF_TYPE.%s = 0x%02x" % (name, int(v)),
+                   "REF_TYPE.%s is 0x%02x; %s is opcode 0x%02x" % (name, int(v), mn, exp[0]), node=c.node,
+                   detail="%s = 0x%02x = %s" % (name, exp[0], mn))
+    missing = sorted(set(want) - vals)
+    sink.check("ref-type", "REF_TYPE covers", not missing, _EnumAt(m, c), "REF_TYPE lacks %s" % op_set_str(missing),
+               "REF_TYPE has no member for %s" % op_set_str(missing), node=c.node, detail="a member for every opcode of the kind")
+    sink.count("ref_type_members", n)
+
+
+class _EnumAt:
+    def __init__(self, m, c):
+        self.qualname = c.name
+        self.file = m.relpath
+        self.line = c.node.lineno
+
+
+def rule_field_lookup(sink, eng: Engine):
+    """Analysis.add registers one FieldAnalysis per field in the class that declares it, and
+    Analysis.get_field_analysis(field) reads classes[field.get_class_name()]._fields[field]"""
+    m = eng.mod(ANALYSIS)
+    A = m.cls("Analysis")
+    f = eng.func(ANALYSIS, "Analysis.add")
+    sink.analysed(f)
+    n = 0
+    seen = set()
+    for st in Exec(eng, root_cls=A).run(f):
+        if st.raised:
+            continue
+        for e in st.events:
+            if e.kind == "store_sub" and e.base[0] == "attr" and e.base[2] == "_fields":
+                k = (e.base, e.key, e.value)
+                if k in seen:
+                    continue
+                seen.add(k)
+                n += 1
+                cls_t, fld, val = e.base[1], e.key, e.value
+                ok = False
+                if fld[0] == "elem" and is_mcall(fld[1], "get_fields"):
+                    cc = is_mcall(fld[1], "get_fields")[0]
+                    ok = (cls_t == ("sub", ("attr", ROOT_SELF, "classes"), mk_mcall(cc, "get_name"))
+                          and val[0] == "new" and val[1] == "FieldAnalysis" and tuple(val[2]) == (fld,))
+                sink.check("single-field-analysis", "Analysis.add registers fields", ok, f, "%s._fields[%s] = %s" % (show(cls_t), show(fld), show(val)),
+                           "Analysis.add registers %s under %s in %s; specification: one FieldAnalysis(field) per field, in the ClassAnalysis of the declaring class" % (
+                               show(val), show(fld), show(cls_t)), node=e.root_node(), detail="classes[cls.get_name()]._fields[field] = FieldAnalysis(field) for field in cls.get_fields()")
+    sink.count("field_registrations", n)
+    sink.floor("field_registrations", 1)
+    g = eng.func(ANALYSIS, "Analysis.get_field_analysis")
+    sink.analysed(g)
+    ps = g.params()
+    F = ("param", g.qualname, ps[1])
+    rets = set()
+    for st in Exec(eng, root_cls=A).run(g):
+        if not st.raised and st.retval is not None and st.retval != const(None):
+            rets.add(st.retval)
+    sink.require(rets, "Analysis.get_field_analysis returns nothing")
+    for r in rets:
+        ok = False
+        inner = None
+        if is_mcall(r, "get") and r[2] and r[2][0] == F and r[1][1][0] == "attr" and r[1][1][2] == "_fields":
+            inner = r[1][1][1]
+        elif r[0] == "sub" and r[2] == F and r[1][0] == "attr" and r[1][2] == "_fields":
+            inner = r[1][1]
+        if inner is not None:
+            key = None
+            if is_mcall(inner, "get") and inner[1][1] == ("attr", ROOT_SELF, "classes") and inner[2]:
+                key = inner[2][0]
+            elif inner[0] == "sub" and inner[1] == ("attr", ROOT_SELF, "classes"):
+                key = inner[2]
+            ok = key == mk_mcall(F, "get_class_name")
+        sink.check("single-field-analysis", "get_field_analysis lookup", ok, g, "returns %s" % show(r),
+                   "Analysis.get_field_analysis(field) returns %s; specification: classes[field.get_class_name()]._fields[field]" % show(r), node=g.node,
+                   detail="returns classes[field.get_class_name()]._fields.get(field)")
+
+
+def rule_field_resolution(sink, xm: XrefModel):
+    """the target field of an access must be resolved among all analysed DEX files (the property quantifies over
+    fields 'of classes in another DEX of the same analysis')"""
+    R = xm.roles
+    seen = set()
+    for p in xm.paths:
+        for f in p.facts:
+            if fact_pool(f) != "field":
+                continue
+            for r in (f.r_owner,) + tuple(f.r_tup):
+                for x in _walk_role(r):
+                    if x[0] == "FIELDITEM" and x not in seen:
+                        seen.add(x)
+                        sink.count("field_resolutions")
+                        per_dex = x[1] is not None and x[1][0] == "VM"
+                        sink.check("resolution", "target field lookup", not per_dex, xm.root, R.rname(x),
+                                   "the accessed field is resolved by %s, i.e. only among the fields defined in the DEX file that contains the accessing "
+                                   "instruction: an access to a field of a class in another DEX of the same analysis is silently dropped" % R.rname(x),
+                                   node=f.ev.root_node(), detail="target field resolved among all analysed DEX files")
+    sink.floor("field_resolutions", 1)
+
+
+def _walk_role(r):
+    if isinstance(r, tuple):
+        if r and isinstance(r[0], str):
+            yield r
+        for x in r:
+            if isinstance(x, tuple):
+                yield from _walk_role(x)
+
+
+# ===========================================================================
+# in-memory mutation helpers (thorough tier)
+# ===========================================================================
+def clone_func(node):
+    """fresh copy of a function node (with _parent links and the original line numbers)"""
+    new = ast.parse(ast.unparse(node)).body[0]
+    for parent in ast.walk(new):
+        for ch in ast.iter_child_nodes(parent):
+            ch._parent = parent
+    new._parent = getattr(node, "_parent", None)
+    ast.increment_lineno(new, node.lineno - new.lineno)
+    return new
+
+
+def _calls(node, attr):
+    return [n for n in ast.walk(node) if isinstance(n, ast.Call) and isinstance(n.func, ast.Attribute) and n.func.attr == attr]
+
+
+def _stmt_lists(node):
+    for n in ast.walk(node):
+        for fld in ("body", "orelse", "finalbody"):
+            b = getattr(n, fld, None)
+            if isinstance(b, list) and b and isinstance(b[0], ast.stmt):
+                yield b
+
+
+class Mut:
+    """a named edit of one function:  Mut(relpath, qualname, label, fn)  with fn(node) -> True if applied"""
+
+    def __init__(self, rel, qualname, label, fn):
+        self.rel, self.qualname, self.label, self.fn = rel, qualname, label, fn
+
+
+def m_swap_args(attr, i, j, nth=0):
+    def fn(node):
+        cs = _calls(node, attr)
+        if len(cs) <= nth:
+            return False
+        a = cs[nth].args
+        a[i], a[j] = a[j], a[i]
+        return True
+    return fn
+
+
+def m_set_arg(attr, i, expr, nth=0):
+    def fn(node):
+        cs = _calls(node, attr)
+        if len(cs) <= nth:
+            return False
+        cs[nth].args[i] = ast.parse(expr, mode="eval").body
+        return True
+    return fn
+
+
+def m_set_receiver(attr, expr, nth=0):
+    def fn(node):
+        cs = _calls(node, attr)
+        if len(cs) <= nth:
+            return False
+        cs[nth].func.value = ast.parse(expr, mode="eval").body
+        return True
+    return fn
+
+
+def m_rename_call(attr, new, nth=0):
+    def fn(node):
+        cs = _calls(node, attr)
+        if len(cs) <= nth:
+            return False
+        cs[nth].func.attr = new
+        return True
+    return fn
+
+
+def m_delete_call(attr, nth=0):
+    def fn(node):
+        k = 0
+        for b in _stmt_lists(node):
+            for i, s in enumerate(b):
+                if isinstance(s, ast.Expr) and isinstance(s.value, ast.Call) and isinstance(s.value.func, ast.Attribute) and s.value.func.attr == attr:
+                    if k == nth:
+                        b[i] = ast.Pass()
+                        return True
+                    k += 1
+        return False
+    return fn
+
+
+def m_const(old, new, nth=0):
+    def fn(node):
+        k = 0
+        for n in ast.walk(node):
+            if isinstance(n, ast.Constant) and type(n.value) is type(old) and n.value == old:
+                if k == nth:
+                    n.value = new
+                    return True
+                k += 1
+        return False
+    return fn
+
+
+def m_replace_src(old, new, count=1):
+    """textual edit of the unparsed function (for edits that are awkward as tree surgery)"""
+    def fn(node):
+        src = ast.unparse(node)
+        if old not in src:
+            return False
+        src2 = src.replace(old, new, count)
+        newn = ast.parse(src2).body[0]
+        node.body = newn.body
+        node.args = newn.args
+        for parent in ast.walk(node):
+            for ch in ast.iter_child_nodes(parent):
+                ch._parent = parent
+        return True
+    return fn
+
+
+def b_rename_local(old, new):
+    def fn(node):
+        hit = False
+        for n in ast.walk(node):
+            if isinstance(n, ast.Name) and n.id == old:
+                n.id = new
+                hit = True
+        return hit
+    return fn
+
+
+def run_mutants(ctx, eng_repo, core, mutants, benign, baseline_keys):
+    """apply each edit to a fresh copy of its function, re-run `core(sink, engine)` and compare the findings with the
+    unedited tree: a breaking edit must add a finding, a benign one must change nothing."""
+    killed = 0
+    survivors = []
+    for mu in mutants:
+        keys, err = _run_one(eng_repo, core, mu)
+        if err == "n/a":
+            raise AnalysisError("mutation %s no longer applies to %s (update the mutant list)" % (mu.label, mu.qualname))
+        if err is None and (keys - baseline_keys):
+            killed += 1
+        else:
+            survivors.append("%s [%s]" % (mu.label, err or "no new finding"))
+    silent = 0
+    noisy = []
+    for mu in benign:
+        keys, err = _run_one(eng_repo, core, mu)
+        if err == "n/a":
+            raise AnalysisError("benign edit %s no longer applies to %s" % (mu.label, mu.qualname))
+        if err is None and keys == baseline_keys:
+            silent += 1
+        else:
+            noisy.append("%s [%s]" % (mu.label, err or "findings changed: +%s -%s" % (sorted(keys - baseline_keys)[:2], sorted(baseline_keys - keys)[:2])))
+    ctx.extra["mutants_total"] = len(mutants)
+    ctx.extra["mutants_killed"] = killed
+    ctx.extra["benign_total"] = len(benign)
+    ctx.extra["benign_silent"] = silent
+    ctx.extra["mutants"] = [m.label for m in mutants]
+    ctx.ob("mutation-adequacy", "breaking edits detected", not survivors, "%d/%d in-memory breaking edits produce a new finding" % (killed, len(mutants)))
+    ctx.ob("mutation-adequacy", "benign edits silent", not noisy, "%d/%d in-memory benign edits leave the findings unchanged" % (silent, len(benign)))
+    if survivors:
+        raise AnalysisError("rule lost its teeth: surviving mutants: %s" % "; ".join(survivors))
+    if noisy:
+        raise AnalysisError("rule is brittle: benign edits change the result: %s" % "; ".join(noisy))
+
+
+def _run_one(repo, core, mu):
+    base = Engine(repo)
+    f = base.func(mu.rel, mu.qualname)
+    node = clone_func(f.node)
+    try:
+        applied = mu.fn(node)
+    except (IndexError, AttributeError):
+        applied = False
+    if not applied:
+        return set(), "n/a"
+    for parent in ast.walk(node):
+        for ch in ast.iter_child_nodes(parent):
+            ch._parent = parent
+    ast.fix_missing_locations(node)
+    eng = Engine(repo, overrides={(mu.rel, mu.qualname): node})
+    c = Collector("quick")
+    try:
+        core(c, eng)
+    except AnalysisError as e:
+        return c.keys(), "analysis error: %s" % str(e)[:160]
+    return c.keys(), None
